@@ -802,7 +802,7 @@ func bIfelse(intp *Interpreter) error {
 }
 
 func bIndex(intp *Interpreter) error {
-	if len(intp.Stack) < 2 {
+	if len(intp.Stack) < 1 {
 		return intp.e(eStackunderflow, "index: not enough arguments")
 	}
 	index, ok := intp.Stack[len(intp.Stack)-1].(Integer)
